@@ -6,7 +6,7 @@
 //! fn: <pallas_network::miniprotocols::peersharing::Message as Encode/Decode>, <PeerAddress as Encode/Decode>
 //! fn: minicbor::Encoder over encode::write::Cursor<&mut [u8]>, minicbor::Decoder
 //! stub: std::fmt::format -> empty String
-//! outside: mixtures of CBOR head classes inside one message: all integer scalars of a message are symbolic within the same head class (1/2/3/5/9-byte encoding, clamped to the scalar's type); quick tier = widest class for every variant + all classes for keepalive and Point; thorough = all classes for one variant per scalar shape
+//! outside: mixtures of CBOR head classes inside one message: all integer scalars of a message are symbolic within the same head class (1/2/3/5/9-byte encoding, clamped to the scalar's type); quick tier = widest class, well-formedness half (`_wf`) for one to three variants per protocol incl. every container shape and decoder half (`_rt`) for the scalar-light variants; thorough = both halves for every variant, plus the other head classes for one variant per scalar shape
 //! outside: variants owning a HashMap version table (handshake Propose/QueryReply) and the remaining handshake messages and the node-to-client protocols (localstate, localtxsubmission, txmonitor, localmsg*); vectors longer than 2 elements; byte strings longer than 3 bytes (1 byte inside the nested variants)
 //! outside: chainsync HeaderContent values that the type allows but the wire format cannot represent (variant 0 without byron prefix: encode returns Err; variant != 0 with a prefix: prefix is not written) -- "representable field combinations" in the property text
 //! assume: the well-formedness oracle is the hand-written walker in cborwf.rs (strict: declared container lengths must be met, reserved heads rejected); trusted, small, same file in both crates
@@ -106,11 +106,15 @@ pub fn encode_into<T: pallas_codec::minicbor::Encode<()>>(x: &T, buf: &mut [u8])
     (ok, e.writer().position())
 }
 
-/// The property, for any `T: Encode + Decode`: `$mk` builds the value, `$eq` compares two values field-wise,
-/// `$n` = buffer size, `$steps` = upper bound on the number of CBOR heads of the encoding (walker bound).
-macro_rules! roundtrip {
+/// The property, for any `T: Encode + Decode`, in two halves (measured: the decoder half costs 5-20x the walker half
+/// because every integer head read by minicbor fans out into its allocation-carrying error paths):
+/// `wf!`: the real encoder's output is exactly one well-formed CBOR item (strict walker);
+/// `rt!`: the real decoder returns a field-wise equal value from it and stops at its end.
+/// `$mk` builds the value, `$eq` compares two values field-wise, `$n` = buffer size, `$steps` = upper bound on the
+/// number of CBOR heads of the encoding (walker bound), `$class` = head class of the integer scalars.
+macro_rules! wf {
     ($name:ident, $t:ty, $n:expr, $steps:expr, $unw:expr, $mk:expr, $eq:path) => {
-        roundtrip!($name, $t, $n, $steps, $unw, $mk, $eq, 4);
+        wf!($name, $t, $n, $steps, $unw, $mk, $eq, 4);
     };
     ($name:ident, $t:ty, $n:expr, $steps:expr, $unw:expr, $mk:expr, $eq:path, $class:expr) => {
         #[kani::proof]
@@ -126,6 +130,25 @@ macro_rules! roundtrip {
             let w = walk(&buf, len, $steps);
             assert!(w.is_some(), "the encoding is a well-formed CBOR item: every declared container length is met");
             assert!(w == Some(len), "the encoding is exactly one item: the strict walker ends where the encoder stopped");
+            kani::cover!(w == Some(len), "walker reached the end of the encoding");
+            core::mem::forget(msg);
+        }
+    };
+}
+macro_rules! rt {
+    ($name:ident, $t:ty, $n:expr, $steps:expr, $unw:expr, $mk:expr, $eq:path) => {
+        rt!($name, $t, $n, $steps, $unw, $mk, $eq, 4);
+    };
+    ($name:ident, $t:ty, $n:expr, $steps:expr, $unw:expr, $mk:expr, $eq:path, $class:expr) => {
+        #[kani::proof]
+        #[kani::unwind($unw)]
+        #[kani::stub(std::fmt::format, crate::stubs::fmt_format_stub)]
+        fn $name() {
+            set_class($class);
+            let msg: $t = $mk;
+            let mut buf = [0u8; $n];
+            let (enc_ok, len) = encode_into(&msg, &mut buf[..]);
+            assert!(enc_ok, "the value encodes (buffer is large enough)");
             // decoded from the whole zero-padded buffer (a slice of symbolic length costs 5x): stopping exactly at `len` is asserted below
             let mut d = Decoder::new(&buf[..]);
             let back: Result<$t, _> = d.decode();
@@ -136,7 +159,7 @@ macro_rules! roundtrip {
                 }
                 Err(_) => assert!(false, "the encoding decodes"),
             }
-            kani::cover!(back.is_ok() && w == Some(len), "round trip completed");
+            kani::cover!(back.is_ok(), "round trip completed");
             core::mem::forget(back);
             core::mem::forget(msg);
         }
@@ -159,17 +182,23 @@ pub mod ka {
     }
 }
 // bound: keepalive, variant concrete, cookie any u16 of the 3-byte head class; 8-byte buffer, walker <= 4 heads; unwind 10
-roundtrip!(c22_q_ka_keepalive, ka::Message, 8, 4, 10, ka::Message::KeepAlive(any_u16()), ka::eq);
-roundtrip!(c22_q_ka_response, ka::Message, 8, 4, 10, ka::Message::ResponseKeepAlive(any_u16()), ka::eq);
-roundtrip!(c22_q_ka_done, ka::Message, 8, 4, 10, ka::Message::Done, ka::eq);
+wf!(c22_q_ka_keepalive_wf, ka::Message, 8, 4, 10, ka::Message::KeepAlive(any_u16()), ka::eq);
+rt!(c22_q_ka_keepalive_rt, ka::Message, 8, 4, 10, ka::Message::KeepAlive(any_u16()), ka::eq);
+wf!(c22_q_ka_response_wf, ka::Message, 8, 4, 10, ka::Message::ResponseKeepAlive(any_u16()), ka::eq);
+rt!(c22_q_ka_response_rt, ka::Message, 8, 4, 10, ka::Message::ResponseKeepAlive(any_u16()), ka::eq);
+wf!(c22_q_ka_done_wf, ka::Message, 8, 4, 10, ka::Message::Done, ka::eq);
+rt!(c22_q_ka_done_rt, ka::Message, 8, 4, 10, ka::Message::Done, ka::eq);
 
 // ---------------------------------------------------------------------------------------------
 // Point
 // ---------------------------------------------------------------------------------------------
 // bound: Point::Origin / Point::Specific(any u64 slot, hash of 0 / 3 symbolic bytes); 16-byte buffer, walker <= 4 heads; unwind 10
-roundtrip!(c22_q_point_origin, Point, 16, 4, 10, point_k(0, 0), eq_point);
-roundtrip!(c22_q_point_specific0, Point, 16, 4, 10, point_k(1, 0), eq_point);
-roundtrip!(c22_q_point_specific3, Point, 16, 4, 10, point_k(1, 3), eq_point);
+wf!(c22_q_point_origin_wf, Point, 16, 4, 10, point_k(0, 0), eq_point);
+rt!(c22_q_point_origin_rt, Point, 16, 4, 10, point_k(0, 0), eq_point);
+wf!(c22_t_point_specific0_wf, Point, 16, 4, 10, point_k(1, 0), eq_point);
+rt!(c22_t_point_specific0_rt, Point, 16, 4, 10, point_k(1, 0), eq_point);
+wf!(c22_q_point_specific3_wf, Point, 16, 4, 10, point_k(1, 3), eq_point);
+rt!(c22_t_point_specific3_rt, Point, 16, 4, 10, point_k(1, 3), eq_point);
 
 // ---------------------------------------------------------------------------------------------
 // blockfetch
@@ -190,15 +219,24 @@ pub mod bf {
     }
 }
 // bound: blockfetch, variant concrete; RequestRange with (Specific, Specific) 1-byte hashes / (Origin, Specific) / (Origin, Origin), slots any u64; Block body of 0 / 3 symbolic bytes; 32-byte buffer, walker <= 10 heads; unwind 12
-roundtrip!(c22_q_bf_range_ss, bf::Message, 32, 10, 12, bf::Message::RequestRange { range: (point_k(1, 1), point_k(1, 1)) }, bf::eq);
-roundtrip!(c22_q_bf_range_os, bf::Message, 32, 10, 12, bf::Message::RequestRange { range: (point_k(0, 0), point_k(1, 1)) }, bf::eq);
-roundtrip!(c22_t_bf_range_oo, bf::Message, 32, 10, 12, bf::Message::RequestRange { range: (point_k(0, 0), point_k(0, 0)) }, bf::eq);
-roundtrip!(c22_q_bf_clientdone, bf::Message, 32, 10, 12, bf::Message::ClientDone, bf::eq);
-roundtrip!(c22_q_bf_startbatch, bf::Message, 32, 10, 12, bf::Message::StartBatch, bf::eq);
-roundtrip!(c22_q_bf_noblocks, bf::Message, 32, 10, 12, bf::Message::NoBlocks, bf::eq);
-roundtrip!(c22_q_bf_block0, bf::Message, 32, 10, 12, bf::Message::Block { body: bytes_n(0) }, bf::eq);
-roundtrip!(c22_q_bf_block3, bf::Message, 32, 10, 12, bf::Message::Block { body: bytes_n(3) }, bf::eq);
-roundtrip!(c22_q_bf_batchdone, bf::Message, 32, 10, 12, bf::Message::BatchDone, bf::eq);
+wf!(c22_q_bf_range_ss_wf, bf::Message, 32, 10, 12, bf::Message::RequestRange { range: (point_k(1, 1), point_k(1, 1)) }, bf::eq);
+rt!(c22_t_bf_range_ss_rt, bf::Message, 32, 10, 12, bf::Message::RequestRange { range: (point_k(1, 1), point_k(1, 1)) }, bf::eq);
+wf!(c22_t_bf_range_os_wf, bf::Message, 32, 10, 12, bf::Message::RequestRange { range: (point_k(0, 0), point_k(1, 1)) }, bf::eq);
+rt!(c22_t_bf_range_os_rt, bf::Message, 32, 10, 12, bf::Message::RequestRange { range: (point_k(0, 0), point_k(1, 1)) }, bf::eq);
+wf!(c22_t_bf_range_oo_wf, bf::Message, 32, 10, 12, bf::Message::RequestRange { range: (point_k(0, 0), point_k(0, 0)) }, bf::eq);
+rt!(c22_t_bf_range_oo_rt, bf::Message, 32, 10, 12, bf::Message::RequestRange { range: (point_k(0, 0), point_k(0, 0)) }, bf::eq);
+wf!(c22_t_bf_clientdone_wf, bf::Message, 32, 10, 12, bf::Message::ClientDone, bf::eq);
+rt!(c22_t_bf_clientdone_rt, bf::Message, 32, 10, 12, bf::Message::ClientDone, bf::eq);
+wf!(c22_q_bf_startbatch_wf, bf::Message, 32, 10, 12, bf::Message::StartBatch, bf::eq);
+rt!(c22_q_bf_startbatch_rt, bf::Message, 32, 10, 12, bf::Message::StartBatch, bf::eq);
+wf!(c22_t_bf_noblocks_wf, bf::Message, 32, 10, 12, bf::Message::NoBlocks, bf::eq);
+rt!(c22_t_bf_noblocks_rt, bf::Message, 32, 10, 12, bf::Message::NoBlocks, bf::eq);
+wf!(c22_t_bf_block0_wf, bf::Message, 32, 10, 12, bf::Message::Block { body: bytes_n(0) }, bf::eq);
+rt!(c22_t_bf_block0_rt, bf::Message, 32, 10, 12, bf::Message::Block { body: bytes_n(0) }, bf::eq);
+wf!(c22_q_bf_block3_wf, bf::Message, 32, 10, 12, bf::Message::Block { body: bytes_n(3) }, bf::eq);
+rt!(c22_q_bf_block3_rt, bf::Message, 32, 10, 12, bf::Message::Block { body: bytes_n(3) }, bf::eq);
+wf!(c22_t_bf_batchdone_wf, bf::Message, 32, 10, 12, bf::Message::BatchDone, bf::eq);
+rt!(c22_t_bf_batchdone_rt, bf::Message, 32, 10, 12, bf::Message::BatchDone, bf::eq);
 
 // ---------------------------------------------------------------------------------------------
 // chainsync (HeaderContent)
@@ -262,20 +300,34 @@ pub mod cs {
     }
 }
 // bound: chainsync<HeaderContent>, variant concrete; slots / block numbers any u64; point hashes 0..1 byte; header cbor 0..1 byte (nested CBOR-in-CBOR variants); FindIntersect with 0, 1, 2 points; 48-byte buffer, walker <= 16 heads; unwind 18
-roundtrip!(c22_q_cs_requestnext, cs::Message, 48, 16, 18, cs::Message::RequestNext, cs::eq);
-roundtrip!(c22_q_cs_awaitreply, cs::Message, 48, 16, 18, cs::Message::AwaitReply, cs::eq);
-roundtrip!(c22_q_cs_rollforward_shelley, cs::Message, 48, 16, 18, cs::Message::RollForward(cs::content(false, 1), cs::tip_k(1, 1)), cs::eq);
-roundtrip!(c22_q_cs_rollforward_byron, cs::Message, 48, 16, 18, cs::Message::RollForward(cs::content(true, 1), cs::tip_k(1, 0)), cs::eq);
-roundtrip!(c22_t_cs_rollforward_shelley_origin, cs::Message, 48, 16, 18, cs::Message::RollForward(cs::content(false, 0), cs::tip_k(0, 0)), cs::eq);
-roundtrip!(c22_q_cs_rollbackward, cs::Message, 48, 16, 18, cs::Message::RollBackward(point_k(1, 1), cs::tip_k(1, 1)), cs::eq);
-roundtrip!(c22_t_cs_rollbackward_origin, cs::Message, 48, 16, 18, cs::Message::RollBackward(point_k(0, 0), cs::tip_k(1, 0)), cs::eq);
-roundtrip!(c22_q_cs_findintersect0, cs::Message, 48, 16, 18, cs::Message::FindIntersect(cs::points(0)), cs::eq);
-roundtrip!(c22_q_cs_findintersect1, cs::Message, 48, 16, 18, cs::Message::FindIntersect(cs::points(1)), cs::eq);
-roundtrip!(c22_q_cs_findintersect2, cs::Message, 48, 16, 18, cs::Message::FindIntersect(cs::points(2)), cs::eq);
-roundtrip!(c22_q_cs_intersectfound, cs::Message, 48, 16, 18, cs::Message::IntersectFound(point_k(1, 1), cs::tip_k(1, 1)), cs::eq);
-roundtrip!(c22_q_cs_intersectnotfound, cs::Message, 48, 16, 18, cs::Message::IntersectNotFound(cs::tip_k(1, 1)), cs::eq);
-roundtrip!(c22_t_cs_intersectnotfound_origin, cs::Message, 48, 16, 18, cs::Message::IntersectNotFound(cs::tip_k(0, 0)), cs::eq);
-roundtrip!(c22_q_cs_done, cs::Message, 48, 16, 18, cs::Message::Done, cs::eq);
+wf!(c22_t_cs_requestnext_wf, cs::Message, 48, 16, 18, cs::Message::RequestNext, cs::eq);
+rt!(c22_t_cs_requestnext_rt, cs::Message, 48, 16, 18, cs::Message::RequestNext, cs::eq);
+wf!(c22_t_cs_awaitreply_wf, cs::Message, 48, 16, 18, cs::Message::AwaitReply, cs::eq);
+rt!(c22_t_cs_awaitreply_rt, cs::Message, 48, 16, 18, cs::Message::AwaitReply, cs::eq);
+wf!(c22_t_cs_rollforward_shelley_wf, cs::Message, 48, 16, 18, cs::Message::RollForward(cs::content(false, 1), cs::tip_k(1, 1)), cs::eq);
+rt!(c22_t_cs_rollforward_shelley_rt, cs::Message, 48, 16, 18, cs::Message::RollForward(cs::content(false, 1), cs::tip_k(1, 1)), cs::eq);
+wf!(c22_t_cs_rollforward_byron_wf, cs::Message, 48, 16, 18, cs::Message::RollForward(cs::content(true, 1), cs::tip_k(1, 0)), cs::eq);
+rt!(c22_t_cs_rollforward_byron_rt, cs::Message, 48, 16, 18, cs::Message::RollForward(cs::content(true, 1), cs::tip_k(1, 0)), cs::eq);
+wf!(c22_t_cs_rollforward_shelley_origin_wf, cs::Message, 48, 16, 18, cs::Message::RollForward(cs::content(false, 0), cs::tip_k(0, 0)), cs::eq);
+rt!(c22_t_cs_rollforward_shelley_origin_rt, cs::Message, 48, 16, 18, cs::Message::RollForward(cs::content(false, 0), cs::tip_k(0, 0)), cs::eq);
+wf!(c22_q_cs_rollbackward_wf, cs::Message, 48, 16, 18, cs::Message::RollBackward(point_k(1, 1), cs::tip_k(1, 1)), cs::eq);
+rt!(c22_t_cs_rollbackward_rt, cs::Message, 48, 16, 18, cs::Message::RollBackward(point_k(1, 1), cs::tip_k(1, 1)), cs::eq);
+wf!(c22_t_cs_rollbackward_origin_wf, cs::Message, 48, 16, 18, cs::Message::RollBackward(point_k(0, 0), cs::tip_k(1, 0)), cs::eq);
+rt!(c22_t_cs_rollbackward_origin_rt, cs::Message, 48, 16, 18, cs::Message::RollBackward(point_k(0, 0), cs::tip_k(1, 0)), cs::eq);
+wf!(c22_t_cs_findintersect0_wf, cs::Message, 48, 16, 18, cs::Message::FindIntersect(cs::points(0)), cs::eq);
+rt!(c22_t_cs_findintersect0_rt, cs::Message, 48, 16, 18, cs::Message::FindIntersect(cs::points(0)), cs::eq);
+wf!(c22_q_cs_findintersect1_wf, cs::Message, 48, 16, 18, cs::Message::FindIntersect(cs::points(1)), cs::eq);
+rt!(c22_t_cs_findintersect1_rt, cs::Message, 48, 16, 18, cs::Message::FindIntersect(cs::points(1)), cs::eq);
+wf!(c22_t_cs_findintersect2_wf, cs::Message, 48, 16, 18, cs::Message::FindIntersect(cs::points(2)), cs::eq);
+rt!(c22_t_cs_findintersect2_rt, cs::Message, 48, 16, 18, cs::Message::FindIntersect(cs::points(2)), cs::eq);
+wf!(c22_t_cs_intersectfound_wf, cs::Message, 48, 16, 18, cs::Message::IntersectFound(point_k(1, 1), cs::tip_k(1, 1)), cs::eq);
+rt!(c22_t_cs_intersectfound_rt, cs::Message, 48, 16, 18, cs::Message::IntersectFound(point_k(1, 1), cs::tip_k(1, 1)), cs::eq);
+wf!(c22_t_cs_intersectnotfound_wf, cs::Message, 48, 16, 18, cs::Message::IntersectNotFound(cs::tip_k(1, 1)), cs::eq);
+rt!(c22_t_cs_intersectnotfound_rt, cs::Message, 48, 16, 18, cs::Message::IntersectNotFound(cs::tip_k(1, 1)), cs::eq);
+wf!(c22_t_cs_intersectnotfound_origin_wf, cs::Message, 48, 16, 18, cs::Message::IntersectNotFound(cs::tip_k(0, 0)), cs::eq);
+rt!(c22_t_cs_intersectnotfound_origin_rt, cs::Message, 48, 16, 18, cs::Message::IntersectNotFound(cs::tip_k(0, 0)), cs::eq);
+wf!(c22_q_cs_done_wf, cs::Message, 48, 16, 18, cs::Message::Done, cs::eq);
+rt!(c22_q_cs_done_rt, cs::Message, 48, 16, 18, cs::Message::Done, cs::eq);
 
 // ---------------------------------------------------------------------------------------------
 // txsubmission
@@ -370,18 +422,30 @@ pub mod tx {
     }
 }
 // bound: txsubmission, variant concrete; blocking flag / counts / eras / sizes symbolic; lists of 0, 1, 2 elements; tx ids and bodies 0..1 byte; 40-byte buffer, walker <= 16 heads; unwind 18
-roundtrip!(c22_q_tx_init, tx::Message, 40, 16, 18, tx::Message::Init, tx::eq);
-roundtrip!(c22_q_tx_requesttxids, tx::Message, 40, 16, 18, tx::Message::RequestTxIds(kani::any(), any_u16(), any_u16()), tx::eq);
-roundtrip!(c22_q_tx_replytxids0, tx::Message, 40, 16, 18, tx::Message::ReplyTxIds(tx::idsizes(0)), tx::eq);
-roundtrip!(c22_q_tx_replytxids1, tx::Message, 40, 16, 18, tx::Message::ReplyTxIds(tx::idsizes(1)), tx::eq);
-roundtrip!(c22_q_tx_replytxids2, tx::Message, 40, 16, 18, tx::Message::ReplyTxIds(tx::idsizes(2)), tx::eq);
-roundtrip!(c22_q_tx_requesttxs0, tx::Message, 40, 16, 18, tx::Message::RequestTxs(tx::ids(0)), tx::eq);
-roundtrip!(c22_q_tx_requesttxs1, tx::Message, 40, 16, 18, tx::Message::RequestTxs(tx::ids(1)), tx::eq);
-roundtrip!(c22_q_tx_requesttxs2, tx::Message, 40, 16, 18, tx::Message::RequestTxs(tx::ids(2)), tx::eq);
-roundtrip!(c22_q_tx_replytxs0, tx::Message, 40, 16, 18, tx::Message::ReplyTxs(tx::bodies(0)), tx::eq);
-roundtrip!(c22_q_tx_replytxs1, tx::Message, 40, 16, 18, tx::Message::ReplyTxs(tx::bodies(1)), tx::eq);
-roundtrip!(c22_q_tx_replytxs2, tx::Message, 40, 16, 18, tx::Message::ReplyTxs(tx::bodies(2)), tx::eq);
-roundtrip!(c22_q_tx_done, tx::Message, 40, 16, 18, tx::Message::Done, tx::eq);
+wf!(c22_t_tx_init_wf, tx::Message, 40, 16, 18, tx::Message::Init, tx::eq);
+rt!(c22_q_tx_init_rt, tx::Message, 40, 16, 18, tx::Message::Init, tx::eq);
+wf!(c22_q_tx_requesttxids_wf, tx::Message, 40, 16, 18, tx::Message::RequestTxIds(kani::any(), any_u16(), any_u16()), tx::eq);
+rt!(c22_t_tx_requesttxids_rt, tx::Message, 40, 16, 18, tx::Message::RequestTxIds(kani::any(), any_u16(), any_u16()), tx::eq);
+wf!(c22_t_tx_replytxids0_wf, tx::Message, 40, 16, 18, tx::Message::ReplyTxIds(tx::idsizes(0)), tx::eq);
+rt!(c22_t_tx_replytxids0_rt, tx::Message, 40, 16, 18, tx::Message::ReplyTxIds(tx::idsizes(0)), tx::eq);
+wf!(c22_q_tx_replytxids1_wf, tx::Message, 40, 16, 18, tx::Message::ReplyTxIds(tx::idsizes(1)), tx::eq);
+rt!(c22_t_tx_replytxids1_rt, tx::Message, 40, 16, 18, tx::Message::ReplyTxIds(tx::idsizes(1)), tx::eq);
+wf!(c22_t_tx_replytxids2_wf, tx::Message, 40, 16, 18, tx::Message::ReplyTxIds(tx::idsizes(2)), tx::eq);
+rt!(c22_t_tx_replytxids2_rt, tx::Message, 40, 16, 18, tx::Message::ReplyTxIds(tx::idsizes(2)), tx::eq);
+wf!(c22_t_tx_requesttxs0_wf, tx::Message, 40, 16, 18, tx::Message::RequestTxs(tx::ids(0)), tx::eq);
+rt!(c22_t_tx_requesttxs0_rt, tx::Message, 40, 16, 18, tx::Message::RequestTxs(tx::ids(0)), tx::eq);
+wf!(c22_t_tx_requesttxs1_wf, tx::Message, 40, 16, 18, tx::Message::RequestTxs(tx::ids(1)), tx::eq);
+rt!(c22_t_tx_requesttxs1_rt, tx::Message, 40, 16, 18, tx::Message::RequestTxs(tx::ids(1)), tx::eq);
+wf!(c22_t_tx_requesttxs2_wf, tx::Message, 40, 16, 18, tx::Message::RequestTxs(tx::ids(2)), tx::eq);
+rt!(c22_t_tx_requesttxs2_rt, tx::Message, 40, 16, 18, tx::Message::RequestTxs(tx::ids(2)), tx::eq);
+wf!(c22_t_tx_replytxs0_wf, tx::Message, 40, 16, 18, tx::Message::ReplyTxs(tx::bodies(0)), tx::eq);
+rt!(c22_t_tx_replytxs0_rt, tx::Message, 40, 16, 18, tx::Message::ReplyTxs(tx::bodies(0)), tx::eq);
+wf!(c22_q_tx_replytxs1_wf, tx::Message, 40, 16, 18, tx::Message::ReplyTxs(tx::bodies(1)), tx::eq);
+rt!(c22_t_tx_replytxs1_rt, tx::Message, 40, 16, 18, tx::Message::ReplyTxs(tx::bodies(1)), tx::eq);
+wf!(c22_t_tx_replytxs2_wf, tx::Message, 40, 16, 18, tx::Message::ReplyTxs(tx::bodies(2)), tx::eq);
+rt!(c22_t_tx_replytxs2_rt, tx::Message, 40, 16, 18, tx::Message::ReplyTxs(tx::bodies(2)), tx::eq);
+wf!(c22_t_tx_done_wf, tx::Message, 40, 16, 18, tx::Message::Done, tx::eq);
+rt!(c22_t_tx_done_rt, tx::Message, 40, 16, 18, tx::Message::Done, tx::eq);
 
 // ---------------------------------------------------------------------------------------------
 // peersharing
@@ -434,54 +498,96 @@ pub mod ps {
     }
 }
 // bound: peersharing, variant concrete; amount any u8; SharePeers with 0 / 1 / 2 IPv4 peers, every address and port; 40-byte buffer, walker <= 12 heads; unwind 14
-roundtrip!(c22_q_ps_sharerequest, ps::Message, 40, 12, 14, ps::Message::ShareRequest(any_u8()), ps::eq);
-roundtrip!(c22_q_ps_sharepeers0, ps::Message, 40, 12, 14, ps::Message::SharePeers(Vec::new()), ps::eq);
-roundtrip!(c22_q_ps_sharepeers1_v4, ps::Message, 40, 12, 14, ps::Message::SharePeers(vec![ps::v4()]), ps::eq);
-roundtrip!(c22_q_ps_sharepeers2_v4, ps::Message, 40, 12, 14, ps::Message::SharePeers(vec![ps::v4(), ps::v4()]), ps::eq);
-roundtrip!(c22_q_ps_done, ps::Message, 40, 12, 14, ps::Message::Done, ps::eq);
-roundtrip!(c22_q_ps_addr_v4, ps::PeerAddress, 40, 12, 14, ps::v4(), ps::eq_addr);
+wf!(c22_q_ps_sharerequest_wf, ps::Message, 40, 12, 14, ps::Message::ShareRequest(any_u8()), ps::eq);
+rt!(c22_q_ps_sharerequest_rt, ps::Message, 40, 12, 14, ps::Message::ShareRequest(any_u8()), ps::eq);
+wf!(c22_t_ps_sharepeers0_wf, ps::Message, 40, 12, 14, ps::Message::SharePeers(Vec::new()), ps::eq);
+rt!(c22_t_ps_sharepeers0_rt, ps::Message, 40, 12, 14, ps::Message::SharePeers(Vec::new()), ps::eq);
+wf!(c22_q_ps_sharepeers1_v4_wf, ps::Message, 40, 12, 14, ps::Message::SharePeers(vec![ps::v4()]), ps::eq);
+rt!(c22_t_ps_sharepeers1_v4_rt, ps::Message, 40, 12, 14, ps::Message::SharePeers(vec![ps::v4()]), ps::eq);
+wf!(c22_t_ps_sharepeers2_v4_wf, ps::Message, 40, 12, 14, ps::Message::SharePeers(vec![ps::v4(), ps::v4()]), ps::eq);
+rt!(c22_t_ps_sharepeers2_v4_rt, ps::Message, 40, 12, 14, ps::Message::SharePeers(vec![ps::v4(), ps::v4()]), ps::eq);
+wf!(c22_t_ps_done_wf, ps::Message, 40, 12, 14, ps::Message::Done, ps::eq);
+rt!(c22_q_ps_done_rt, ps::Message, 40, 12, 14, ps::Message::Done, ps::eq);
+wf!(c22_q_ps_addr_v4_wf, ps::PeerAddress, 40, 12, 14, ps::v4(), ps::eq_addr);
+rt!(c22_t_ps_addr_v4_rt, ps::PeerAddress, 40, 12, 14, ps::v4(), ps::eq_addr);
 // bound: peersharing IPv6 peer address, every address and port, alone and as the single element of SharePeers; 40-byte buffer, walker <= 12 heads; unwind 14
-// finding: c22_q_ps_addr_v6 / c22_q_ps_sharepeers1_v6 are expected FAILED on the current tree (array(8) head followed by 6 items)
-roundtrip!(c22_q_ps_addr_v6, ps::PeerAddress, 40, 12, 14, ps::v6(), ps::eq_addr);
-roundtrip!(c22_q_ps_sharepeers1_v6, ps::Message, 40, 12, 14, ps::Message::SharePeers(vec![ps::v6()]), ps::eq);
+// finding: c22_q_ps_addr_v6_wf / c22_q_ps_sharepeers1_v6_wf are expected FAILED on the current tree (array(8) head followed by 6 items)
+wf!(c22_q_ps_addr_v6_wf, ps::PeerAddress, 40, 12, 14, ps::v6(), ps::eq_addr);
+rt!(c22_t_ps_addr_v6_rt, ps::PeerAddress, 40, 12, 14, ps::v6(), ps::eq_addr);
+wf!(c22_q_ps_sharepeers1_v6_wf, ps::Message, 40, 12, 14, ps::Message::SharePeers(vec![ps::v6()]), ps::eq);
+rt!(c22_t_ps_sharepeers1_v6_rt, ps::Message, 40, 12, 14, ps::Message::SharePeers(vec![ps::v6()]), ps::eq);
 
 // bound: head-class sweep (classes 0..3 = 1, 2, 3, 5-byte integer encodings; class 4 is the default of every harness above): keepalive cookie, Point slot; unwind 10
-roundtrip!(c22_q_ka_keepalive_k0, ka::Message, 8, 4, 10, ka::Message::KeepAlive(any_u16()), ka::eq, 0);
-roundtrip!(c22_q_ka_keepalive_k1, ka::Message, 8, 4, 10, ka::Message::KeepAlive(any_u16()), ka::eq, 1);
-roundtrip!(c22_q_point_specific3_k0, Point, 16, 4, 10, point_k(1, 3), eq_point, 0);
-roundtrip!(c22_q_point_specific3_k1, Point, 16, 4, 10, point_k(1, 3), eq_point, 1);
-roundtrip!(c22_q_point_specific3_k2, Point, 16, 4, 10, point_k(1, 3), eq_point, 2);
-roundtrip!(c22_q_point_specific3_k3, Point, 16, 4, 10, point_k(1, 3), eq_point, 3);
+wf!(c22_t_ka_keepalive_k0_wf, ka::Message, 8, 4, 10, ka::Message::KeepAlive(any_u16()), ka::eq, 0);
+rt!(c22_t_ka_keepalive_k0_rt, ka::Message, 8, 4, 10, ka::Message::KeepAlive(any_u16()), ka::eq, 0);
+wf!(c22_t_ka_keepalive_k1_wf, ka::Message, 8, 4, 10, ka::Message::KeepAlive(any_u16()), ka::eq, 1);
+rt!(c22_t_ka_keepalive_k1_rt, ka::Message, 8, 4, 10, ka::Message::KeepAlive(any_u16()), ka::eq, 1);
+wf!(c22_t_point_specific3_k0_wf, Point, 16, 4, 10, point_k(1, 3), eq_point, 0);
+rt!(c22_t_point_specific3_k0_rt, Point, 16, 4, 10, point_k(1, 3), eq_point, 0);
+wf!(c22_t_point_specific3_k1_wf, Point, 16, 4, 10, point_k(1, 3), eq_point, 1);
+rt!(c22_t_point_specific3_k1_rt, Point, 16, 4, 10, point_k(1, 3), eq_point, 1);
+wf!(c22_t_point_specific3_k2_wf, Point, 16, 4, 10, point_k(1, 3), eq_point, 2);
+rt!(c22_t_point_specific3_k2_rt, Point, 16, 4, 10, point_k(1, 3), eq_point, 2);
+wf!(c22_t_point_specific3_k3_wf, Point, 16, 4, 10, point_k(1, 3), eq_point, 3);
+rt!(c22_t_point_specific3_k3_rt, Point, 16, 4, 10, point_k(1, 3), eq_point, 3);
 
 // bound: head-class sweep (classes 0..3) for one variant per scalar shape: blockfetch RequestRange, chainsync RollForward(byron) / RollBackward, txsubmission RequestTxIds / ReplyTxIds(1), peersharing ShareRequest / SharePeers(1 IPv4); buffers and walker bounds as in the class-4 harness of the same variant
-roundtrip!(c22_t_bf_range_ss_k0, bf::Message, 32, 10, 12, bf::Message::RequestRange { range: (point_k(1, 1), point_k(1, 1)) }, bf::eq, 0);
-roundtrip!(c22_t_bf_range_ss_k1, bf::Message, 32, 10, 12, bf::Message::RequestRange { range: (point_k(1, 1), point_k(1, 1)) }, bf::eq, 1);
-roundtrip!(c22_t_bf_range_ss_k2, bf::Message, 32, 10, 12, bf::Message::RequestRange { range: (point_k(1, 1), point_k(1, 1)) }, bf::eq, 2);
-roundtrip!(c22_t_bf_range_ss_k3, bf::Message, 32, 10, 12, bf::Message::RequestRange { range: (point_k(1, 1), point_k(1, 1)) }, bf::eq, 3);
-roundtrip!(c22_t_cs_rollforward_byron_k0, cs::Message, 48, 16, 18, cs::Message::RollForward(cs::content(true, 1), cs::tip_k(1, 0)), cs::eq, 0);
-roundtrip!(c22_t_cs_rollforward_byron_k1, cs::Message, 48, 16, 18, cs::Message::RollForward(cs::content(true, 1), cs::tip_k(1, 0)), cs::eq, 1);
-roundtrip!(c22_t_cs_rollforward_byron_k2, cs::Message, 48, 16, 18, cs::Message::RollForward(cs::content(true, 1), cs::tip_k(1, 0)), cs::eq, 2);
-roundtrip!(c22_t_cs_rollforward_byron_k3, cs::Message, 48, 16, 18, cs::Message::RollForward(cs::content(true, 1), cs::tip_k(1, 0)), cs::eq, 3);
-roundtrip!(c22_t_cs_rollbackward_k0, cs::Message, 48, 16, 18, cs::Message::RollBackward(point_k(1, 1), cs::tip_k(1, 1)), cs::eq, 0);
-roundtrip!(c22_t_cs_rollbackward_k1, cs::Message, 48, 16, 18, cs::Message::RollBackward(point_k(1, 1), cs::tip_k(1, 1)), cs::eq, 1);
-roundtrip!(c22_t_cs_rollbackward_k2, cs::Message, 48, 16, 18, cs::Message::RollBackward(point_k(1, 1), cs::tip_k(1, 1)), cs::eq, 2);
-roundtrip!(c22_t_cs_rollbackward_k3, cs::Message, 48, 16, 18, cs::Message::RollBackward(point_k(1, 1), cs::tip_k(1, 1)), cs::eq, 3);
-roundtrip!(c22_t_tx_requesttxids_k0, tx::Message, 40, 16, 18, tx::Message::RequestTxIds(kani::any(), any_u16(), any_u16()), tx::eq, 0);
-roundtrip!(c22_t_tx_requesttxids_k1, tx::Message, 40, 16, 18, tx::Message::RequestTxIds(kani::any(), any_u16(), any_u16()), tx::eq, 1);
-roundtrip!(c22_t_tx_requesttxids_k2, tx::Message, 40, 16, 18, tx::Message::RequestTxIds(kani::any(), any_u16(), any_u16()), tx::eq, 2);
-roundtrip!(c22_t_tx_requesttxids_k3, tx::Message, 40, 16, 18, tx::Message::RequestTxIds(kani::any(), any_u16(), any_u16()), tx::eq, 3);
-roundtrip!(c22_t_tx_replytxids1_k0, tx::Message, 40, 16, 18, tx::Message::ReplyTxIds(tx::idsizes(1)), tx::eq, 0);
-roundtrip!(c22_t_tx_replytxids1_k1, tx::Message, 40, 16, 18, tx::Message::ReplyTxIds(tx::idsizes(1)), tx::eq, 1);
-roundtrip!(c22_t_tx_replytxids1_k2, tx::Message, 40, 16, 18, tx::Message::ReplyTxIds(tx::idsizes(1)), tx::eq, 2);
-roundtrip!(c22_t_tx_replytxids1_k3, tx::Message, 40, 16, 18, tx::Message::ReplyTxIds(tx::idsizes(1)), tx::eq, 3);
-roundtrip!(c22_t_ps_sharerequest_k0, ps::Message, 40, 12, 14, ps::Message::ShareRequest(any_u8()), ps::eq, 0);
-roundtrip!(c22_t_ps_sharerequest_k1, ps::Message, 40, 12, 14, ps::Message::ShareRequest(any_u8()), ps::eq, 1);
-roundtrip!(c22_t_ps_sharerequest_k2, ps::Message, 40, 12, 14, ps::Message::ShareRequest(any_u8()), ps::eq, 2);
-roundtrip!(c22_t_ps_sharerequest_k3, ps::Message, 40, 12, 14, ps::Message::ShareRequest(any_u8()), ps::eq, 3);
-roundtrip!(c22_t_ps_sharepeers1_v4_k0, ps::Message, 40, 12, 14, ps::Message::SharePeers(vec![ps::v4()]), ps::eq, 0);
-roundtrip!(c22_t_ps_sharepeers1_v4_k1, ps::Message, 40, 12, 14, ps::Message::SharePeers(vec![ps::v4()]), ps::eq, 1);
-roundtrip!(c22_t_ps_sharepeers1_v4_k2, ps::Message, 40, 12, 14, ps::Message::SharePeers(vec![ps::v4()]), ps::eq, 2);
-roundtrip!(c22_t_ps_sharepeers1_v4_k3, ps::Message, 40, 12, 14, ps::Message::SharePeers(vec![ps::v4()]), ps::eq, 3);
+wf!(c22_t_bf_range_ss_k0_wf, bf::Message, 32, 10, 12, bf::Message::RequestRange { range: (point_k(1, 1), point_k(1, 1)) }, bf::eq, 0);
+rt!(c22_t_bf_range_ss_k0_rt, bf::Message, 32, 10, 12, bf::Message::RequestRange { range: (point_k(1, 1), point_k(1, 1)) }, bf::eq, 0);
+wf!(c22_t_bf_range_ss_k1_wf, bf::Message, 32, 10, 12, bf::Message::RequestRange { range: (point_k(1, 1), point_k(1, 1)) }, bf::eq, 1);
+rt!(c22_t_bf_range_ss_k1_rt, bf::Message, 32, 10, 12, bf::Message::RequestRange { range: (point_k(1, 1), point_k(1, 1)) }, bf::eq, 1);
+wf!(c22_t_bf_range_ss_k2_wf, bf::Message, 32, 10, 12, bf::Message::RequestRange { range: (point_k(1, 1), point_k(1, 1)) }, bf::eq, 2);
+rt!(c22_t_bf_range_ss_k2_rt, bf::Message, 32, 10, 12, bf::Message::RequestRange { range: (point_k(1, 1), point_k(1, 1)) }, bf::eq, 2);
+wf!(c22_t_bf_range_ss_k3_wf, bf::Message, 32, 10, 12, bf::Message::RequestRange { range: (point_k(1, 1), point_k(1, 1)) }, bf::eq, 3);
+rt!(c22_t_bf_range_ss_k3_rt, bf::Message, 32, 10, 12, bf::Message::RequestRange { range: (point_k(1, 1), point_k(1, 1)) }, bf::eq, 3);
+wf!(c22_t_cs_rollforward_byron_k0_wf, cs::Message, 48, 16, 18, cs::Message::RollForward(cs::content(true, 1), cs::tip_k(1, 0)), cs::eq, 0);
+rt!(c22_t_cs_rollforward_byron_k0_rt, cs::Message, 48, 16, 18, cs::Message::RollForward(cs::content(true, 1), cs::tip_k(1, 0)), cs::eq, 0);
+wf!(c22_t_cs_rollforward_byron_k1_wf, cs::Message, 48, 16, 18, cs::Message::RollForward(cs::content(true, 1), cs::tip_k(1, 0)), cs::eq, 1);
+rt!(c22_t_cs_rollforward_byron_k1_rt, cs::Message, 48, 16, 18, cs::Message::RollForward(cs::content(true, 1), cs::tip_k(1, 0)), cs::eq, 1);
+wf!(c22_t_cs_rollforward_byron_k2_wf, cs::Message, 48, 16, 18, cs::Message::RollForward(cs::content(true, 1), cs::tip_k(1, 0)), cs::eq, 2);
+rt!(c22_t_cs_rollforward_byron_k2_rt, cs::Message, 48, 16, 18, cs::Message::RollForward(cs::content(true, 1), cs::tip_k(1, 0)), cs::eq, 2);
+wf!(c22_t_cs_rollforward_byron_k3_wf, cs::Message, 48, 16, 18, cs::Message::RollForward(cs::content(true, 1), cs::tip_k(1, 0)), cs::eq, 3);
+rt!(c22_t_cs_rollforward_byron_k3_rt, cs::Message, 48, 16, 18, cs::Message::RollForward(cs::content(true, 1), cs::tip_k(1, 0)), cs::eq, 3);
+wf!(c22_t_cs_rollbackward_k0_wf, cs::Message, 48, 16, 18, cs::Message::RollBackward(point_k(1, 1), cs::tip_k(1, 1)), cs::eq, 0);
+rt!(c22_t_cs_rollbackward_k0_rt, cs::Message, 48, 16, 18, cs::Message::RollBackward(point_k(1, 1), cs::tip_k(1, 1)), cs::eq, 0);
+wf!(c22_t_cs_rollbackward_k1_wf, cs::Message, 48, 16, 18, cs::Message::RollBackward(point_k(1, 1), cs::tip_k(1, 1)), cs::eq, 1);
+rt!(c22_t_cs_rollbackward_k1_rt, cs::Message, 48, 16, 18, cs::Message::RollBackward(point_k(1, 1), cs::tip_k(1, 1)), cs::eq, 1);
+wf!(c22_t_cs_rollbackward_k2_wf, cs::Message, 48, 16, 18, cs::Message::RollBackward(point_k(1, 1), cs::tip_k(1, 1)), cs::eq, 2);
+rt!(c22_t_cs_rollbackward_k2_rt, cs::Message, 48, 16, 18, cs::Message::RollBackward(point_k(1, 1), cs::tip_k(1, 1)), cs::eq, 2);
+wf!(c22_t_cs_rollbackward_k3_wf, cs::Message, 48, 16, 18, cs::Message::RollBackward(point_k(1, 1), cs::tip_k(1, 1)), cs::eq, 3);
+rt!(c22_t_cs_rollbackward_k3_rt, cs::Message, 48, 16, 18, cs::Message::RollBackward(point_k(1, 1), cs::tip_k(1, 1)), cs::eq, 3);
+wf!(c22_t_tx_requesttxids_k0_wf, tx::Message, 40, 16, 18, tx::Message::RequestTxIds(kani::any(), any_u16(), any_u16()), tx::eq, 0);
+rt!(c22_t_tx_requesttxids_k0_rt, tx::Message, 40, 16, 18, tx::Message::RequestTxIds(kani::any(), any_u16(), any_u16()), tx::eq, 0);
+wf!(c22_t_tx_requesttxids_k1_wf, tx::Message, 40, 16, 18, tx::Message::RequestTxIds(kani::any(), any_u16(), any_u16()), tx::eq, 1);
+rt!(c22_t_tx_requesttxids_k1_rt, tx::Message, 40, 16, 18, tx::Message::RequestTxIds(kani::any(), any_u16(), any_u16()), tx::eq, 1);
+wf!(c22_t_tx_requesttxids_k2_wf, tx::Message, 40, 16, 18, tx::Message::RequestTxIds(kani::any(), any_u16(), any_u16()), tx::eq, 2);
+rt!(c22_t_tx_requesttxids_k2_rt, tx::Message, 40, 16, 18, tx::Message::RequestTxIds(kani::any(), any_u16(), any_u16()), tx::eq, 2);
+wf!(c22_t_tx_requesttxids_k3_wf, tx::Message, 40, 16, 18, tx::Message::RequestTxIds(kani::any(), any_u16(), any_u16()), tx::eq, 3);
+rt!(c22_t_tx_requesttxids_k3_rt, tx::Message, 40, 16, 18, tx::Message::RequestTxIds(kani::any(), any_u16(), any_u16()), tx::eq, 3);
+wf!(c22_t_tx_replytxids1_k0_wf, tx::Message, 40, 16, 18, tx::Message::ReplyTxIds(tx::idsizes(1)), tx::eq, 0);
+rt!(c22_t_tx_replytxids1_k0_rt, tx::Message, 40, 16, 18, tx::Message::ReplyTxIds(tx::idsizes(1)), tx::eq, 0);
+wf!(c22_t_tx_replytxids1_k1_wf, tx::Message, 40, 16, 18, tx::Message::ReplyTxIds(tx::idsizes(1)), tx::eq, 1);
+rt!(c22_t_tx_replytxids1_k1_rt, tx::Message, 40, 16, 18, tx::Message::ReplyTxIds(tx::idsizes(1)), tx::eq, 1);
+wf!(c22_t_tx_replytxids1_k2_wf, tx::Message, 40, 16, 18, tx::Message::ReplyTxIds(tx::idsizes(1)), tx::eq, 2);
+rt!(c22_t_tx_replytxids1_k2_rt, tx::Message, 40, 16, 18, tx::Message::ReplyTxIds(tx::idsizes(1)), tx::eq, 2);
+wf!(c22_t_tx_replytxids1_k3_wf, tx::Message, 40, 16, 18, tx::Message::ReplyTxIds(tx::idsizes(1)), tx::eq, 3);
+rt!(c22_t_tx_replytxids1_k3_rt, tx::Message, 40, 16, 18, tx::Message::ReplyTxIds(tx::idsizes(1)), tx::eq, 3);
+wf!(c22_t_ps_sharerequest_k0_wf, ps::Message, 40, 12, 14, ps::Message::ShareRequest(any_u8()), ps::eq, 0);
+rt!(c22_t_ps_sharerequest_k0_rt, ps::Message, 40, 12, 14, ps::Message::ShareRequest(any_u8()), ps::eq, 0);
+wf!(c22_t_ps_sharerequest_k1_wf, ps::Message, 40, 12, 14, ps::Message::ShareRequest(any_u8()), ps::eq, 1);
+rt!(c22_t_ps_sharerequest_k1_rt, ps::Message, 40, 12, 14, ps::Message::ShareRequest(any_u8()), ps::eq, 1);
+wf!(c22_t_ps_sharerequest_k2_wf, ps::Message, 40, 12, 14, ps::Message::ShareRequest(any_u8()), ps::eq, 2);
+rt!(c22_t_ps_sharerequest_k2_rt, ps::Message, 40, 12, 14, ps::Message::ShareRequest(any_u8()), ps::eq, 2);
+wf!(c22_t_ps_sharerequest_k3_wf, ps::Message, 40, 12, 14, ps::Message::ShareRequest(any_u8()), ps::eq, 3);
+rt!(c22_t_ps_sharerequest_k3_rt, ps::Message, 40, 12, 14, ps::Message::ShareRequest(any_u8()), ps::eq, 3);
+wf!(c22_t_ps_sharepeers1_v4_k0_wf, ps::Message, 40, 12, 14, ps::Message::SharePeers(vec![ps::v4()]), ps::eq, 0);
+rt!(c22_t_ps_sharepeers1_v4_k0_rt, ps::Message, 40, 12, 14, ps::Message::SharePeers(vec![ps::v4()]), ps::eq, 0);
+wf!(c22_t_ps_sharepeers1_v4_k1_wf, ps::Message, 40, 12, 14, ps::Message::SharePeers(vec![ps::v4()]), ps::eq, 1);
+rt!(c22_t_ps_sharepeers1_v4_k1_rt, ps::Message, 40, 12, 14, ps::Message::SharePeers(vec![ps::v4()]), ps::eq, 1);
+wf!(c22_t_ps_sharepeers1_v4_k2_wf, ps::Message, 40, 12, 14, ps::Message::SharePeers(vec![ps::v4()]), ps::eq, 2);
+rt!(c22_t_ps_sharepeers1_v4_k2_rt, ps::Message, 40, 12, 14, ps::Message::SharePeers(vec![ps::v4()]), ps::eq, 2);
+wf!(c22_t_ps_sharepeers1_v4_k3_wf, ps::Message, 40, 12, 14, ps::Message::SharePeers(vec![ps::v4()]), ps::eq, 3);
+rt!(c22_t_ps_sharepeers1_v4_k3_rt, ps::Message, 40, 12, 14, ps::Message::SharePeers(vec![ps::v4()]), ps::eq, 3);
 
 /// vacuity twin: must come back FAILED
 #[kani::proof]
